@@ -1,4 +1,5 @@
 import LentilVerif.Model.Fourier
+import LentilVerif.Gen.NormalizePower
 /-! Executable model of the energy bookkeeping of propagation (C05): intensity `|F|²`, the evaluated window of
 `propagate_dft` for untilted fields, the FFT path `fftshift ∘ fft2(norm='ortho') ∘ ifftshift` of `propagate_fft`
 (with the NumPy index maps as contracts) and `util.normalize_power`. Generic in the value type; Mathlib-free. -/
@@ -18,9 +19,10 @@ def intensity (F : Arr K) : Arr R := { s0 := F.s0, s1 := F.s1, get := fun i j =>
 def arrSum {A : Type} [Add A] [Zero A] (a : Arr A) : A :=
   sumRange a.s0.toNat fun i => sumRange a.s1.toNat fun j => a.get i j
 
-/-- `lentil.util.normalize_power(array, power)`: `array * sqrt(power / sum(|array|²))` -/
+/-- `lentil.util.normalize_power(array, power)`: `array * factor`, the factor being the expression regenerated from the source
+(`Gen.npFactor`: `sqrt(power / sum(|array|²))`) -/
 def normalizePower (a : Arr K) (p : R) : Arr K :=
-  { a with get := fun i j => a.get i j * CxLike.ofReal (RealLike.sqrt (p / arrSum (intensity (R := R) a))) }
+  { a with get := fun i j => a.get i j * CxLike.ofReal (Gen.npFactor RealLike.sqrt RealLike.ofInt p (arrSum (intensity (R := R) a))) }
 
 /-- the field `propagate_dft` evaluates on a window of `M × N` output samples whose first sample has integer frequency
 coordinate `(U0, V0)` (output index minus `⌊shape_out/2⌋`), for a list of untilted fields: each field is transformed by
@@ -30,14 +32,6 @@ def propagateWindow (fs : List (Fld K)) (αr αc : R) (M N U0 V0 : Int) : Arr K 
   { s0 := M, s1 := N,
     get := fun u v => sumList fs fun f =>
       (dft2 f.arr αr αc M N (-(RealLike.ofInt (U0 + M / 2))) (-(RealLike.ofInt (V0 + N / 2))) f.o0 f.o1 true).get u v }
-
-/-- as `propagateWindow`, each field carrying a real tilt shift `(sr, sc)` in output samples (`Field.shift`): its transform is
-evaluated at coordinate `(U − sr, V − sc)` (integer and sub-pixel part of the shift both enter through `dft2`'s `shift`) -/
-def propagateWindowTilted (ts : List (Fld K × R × R)) (αr αc : R) (M N U0 V0 : Int) : Arr K :=
-  { s0 := M, s1 := N,
-    get := fun u v => sumList ts fun t =>
-      (dft2 t.1.arr αr αc M N (-(RealLike.ofInt (U0 + M / 2)) + t.2.1) (-(RealLike.ofInt (V0 + N / 2)) + t.2.2)
-        t.1.o0 t.1.o1 true).get u v }
 
 /-- `np.fft.ifftshift(x)[i] = x[(i + ⌊n/2⌋) mod n]` (documented index map; contract) -/
 def ifftshiftIdxE (n i : Int) : Int := (i + n / 2) % n
